@@ -631,6 +631,7 @@ def run(ck, info, pr):
     run_programs(ck, symidx)
     run_interpolations(ck)
     run_literals(ck, info)
+    run_text_level(ck, pr)
 
 
 PROGRAMS = [
@@ -822,6 +823,68 @@ def run_interpolations(ck):
             continue
         if a.get("fmt") != "let v = " + text + "\n":
             ck.disagreement("interp_text differs from display_interpolation", dict(case, real_fmt=a.get("fmt")), None)
+
+
+def run_text_level(ck, pr):
+    """text level (fmt_text_lexes): for generated token lists the model says whether the list is in the SPACED FRAGMENT,
+    what text the renderer writes and which lexer token kinds that text has; the real lexer (prql_to_tokens) must give
+    exactly those kinds on exactly that text.  Lists outside the fragment are counted, not compared."""
+    import os
+    from ..common import COQ
+    if not os.path.exists(os.path.join(COQ, "Proofs", "FmtLexProofs.vo")):
+        ck.coverage["corr-text-lex"] = "skipped: Proofs/FmtLexProofs.vo is not built"
+        return
+    from .c17_lib import py_model_kind, py_impl_kind
+    rng = ck.rng
+    NAMES = ["a", "x1", "_y", "b_c", "let", "true", "null", "false", "into", "case", "func", "module", "prql", "type", "internal", "import", "and", "or", "in",
+             "A", "aZ9", "_", "__", "f64", "e1", "x_", "b c", "1a", "a-b", "", "é", "a.b", "r", "s", "f", "r1", "select", "from"]
+    CH = [chr(c) for c in range(32, 127)]
+    INTS = [0, 1, 7, 42, 1000, 2 ** 63 - 1, 2 ** 63, -1, 10 ** 18, 123456789]
+    nsym = coq_eval(HEADER, ["length symtab"])[0]
+
+    def gen_tok():
+        r = rng.random()
+        if r < 0.22:
+            return ("TA", ("AIdent", [codes(rng.choice(NAMES))]))
+        if r < 0.30:
+            return ("TA", ("ALit", rng.choice([("LBool", True), ("LBool", False), "LNull"])))
+        if r < 0.42:
+            return ("TA", ("ALit", ("LInt", rng.choice(INTS) if rng.random() < 0.6 else rng.randint(0, 10 ** rng.randint(1, 19)))))
+        if r < 0.54:
+            pool = CH if rng.random() < 0.4 else [c for c in CH if c not in "\"\\'"]
+            return ("TA", ("ALit", ("LStr", codes("".join(rng.choice(pool) for _ in range(rng.randint(0, 6)))))))
+        if r < 0.60:
+            return ("TA", ("AParam", codes("".join(rng.choice("ab1_.Z") for _ in range(rng.randint(0, 4))))))
+        if r < 0.80:
+            return ("TS", "%d%%nat" % rng.randint(0, nsym if rng.random() < 0.1 else nsym - 1), False)
+        if r < 0.88:
+            return ("TAlias", codes(rng.choice(NAMES)))
+        if r < 0.93:
+            return "TPipe"
+        if r < 0.97:
+            return "TArrow"
+        return rng.choice(["TComma", ("TOpen", "GTup"), ("TClose", "GTup"), ("TS", "0%nat", True), ("TRg", True, True), ("TNamed", codes("n")), "TFunc"])
+    cases = [[gen_tok() for _ in range(rng.randint(1, 7))] for _ in range(ck.n(300, 6000))]
+    # every symbol next to every symbol (maximal munch across a blank), and each class alone
+    cases += [[("TS", "%d%%nat" % a, False), ("TS", "%d%%nat" % b, False)] for a in range(nsym) for b in range(nsym)]
+    cases += [[("TAlias", codes("x")), ("TS", "%d%%nat" % a, False), "TArrow", "TPipe"] for a in range(nsym)]
+    hdr = (HEADER + "From PV Require Model.Lexer Model.LexerGen Proofs.FmtLexProofs.\n"
+           "Definition sk := (fun s => FmtLexProofs.kind_or_start (FmtLexProofs.sym_kind LexerGen.gen_tables (nth s symtab []))).\n"
+           "Definition ak := FmtLexProofs.kind_or_start (FmtLexProofs.sym_kind LexerGen.gen_tables [61; 62]).\n")
+    vals = coq_eval(hdr, ["(forallb (FmtLexProofs.spaced_tok R_prql (length symtab)) %s, (render R_prql %s, flat_map (FmtLexProofs.tok_kinds sk ak) %s))" % ((coq(ts),) * 3) for ts in cases])
+    todo = []
+    for ts, v in zip(cases, vals):
+        text = "".join(chr(c) for c in v[1][0])
+        ck.count("corr-text-lex", text + "|" + str(v[0]))
+        ck.stat("corr-text-lex", "in-fragment" if v[0] else "outside")
+        if v[0]:
+            todo.append((ts, text, [py_model_kind(k) for k in v[1][1]]))
+    ans = harness("c14lex", [{"src": t} for _, t, _ in todo])
+    for (ts, text, want), a in zip(todo, ans):
+        got = [py_impl_kind(k) for k in a["ok"]][1:] if isinstance(a, dict) and "ok" in a else None
+        if got != want:
+            ck.disagreement("the rendered text of a spaced token list does not lex to the kinds of its tokens (fmt_text_lexes)",
+                            {"tokens": coq(ts)[:400], "text": text, "model_kinds": str(want)[:400], "real": str(got if got is not None else a)[:400]}, None)
 
 
 def drop_parens(rng, s):
